@@ -141,6 +141,9 @@ let dispatch op args = match op, args with
   | "where_s", [x; L m; y] -> let (md, sp) = op_where_s (zll x) (List.map bl m) (zi y) in L [vrows md; L (List.map vzl sp)]
   | "like", [x; c] -> let (md, sp) = op_like (zll x) (zi c) in L [L (List.map vzl md); L (List.map vzl sp)]
   | "concat1", [L xs] -> let r = L (List.map vzl (op_concat1 (List.map zll xs))) in L [r; r]
+  | "rl2_intervals", [st; en; n; v] ->
+      let (((i, vs), d), sp) = rl2_intervals (zl st) (zl en) (zi n) (zi v) in
+      L [L [L (List.map vzl i); L (List.map vzl vs); L (List.map vzl d)]; L (List.map vzl sp)]
   | "fastidx", [st; ls] -> let (m, sp) = op_fastidx (zl st) (zl ls) in L [vzl m; vzl sp]
   | "argmax", [x] -> let (m, s) = op_argmax (zll x) in L [vzl m; vzl s]
   | "argmin", [x] -> let (m, s) = op_argmin (zll x) in L [vzl m; vzl s]
